@@ -200,7 +200,8 @@ structure CPset where
   arguments : List Str
   env : Env
 
-/-- `pset.context.update(adfdict)`: the ADFs compiled so far shadow the set's own names -/
+/-- `pset.context = dict(pset.context, **adfdict)`: a fresh namespace for this compilation, in which the
+ADFs compiled so far shadow the set's own names (so a callable compiled earlier keeps its own ADFs) -/
 def withAdfs (env : Env) (adfdict : List (Str × (List Val → Option Val))) : Env :=
   { env with funs := fun x => match adfdict.find? (fun e => e.1 == x) with
       | some e => some e.2
